@@ -4,6 +4,7 @@ go 1.25.0
 
 require (
 	go.dedis.ch/kyber/v4 v4.0.0
+	golang.org/x/crypto v0.48.0
 	pgregory.net/rapid v1.3.0
 )
 
@@ -13,7 +14,6 @@ require (
 	github.com/consensys/gnark-crypto v0.19.2 // indirect
 	github.com/kilic/bls12-381 v0.1.0 // indirect
 	go.dedis.ch/fixbuf v1.0.3 // indirect
-	golang.org/x/crypto v0.48.0 // indirect
 	golang.org/x/sys v0.42.0 // indirect
 )
 
